@@ -19,6 +19,7 @@ import shutil
 import subprocess
 import sys
 import types
+import zlib
 
 from harness import sched_h
 from harness.sched_h import ALL, World, new_obs, message
@@ -48,7 +49,7 @@ def _digest_program(cmd, *_a, **_k):
 
 _STUB_SUBPROCESS = types.SimpleNamespace(check_output=_digest_program, CalledProcessError=_REAL_SUBPROCESS.CalledProcessError)
 
-STATE = {'world': None}
+STATE = {'world': None, 'twice': False}
 
 
 def run_hook(alg, pkg, frame):
@@ -73,6 +74,9 @@ def run_hook(alg, pkg, frame):
                 content = [tag, key, t, [(loaded.get(p) if loaded.get(p) is not None else []) for p in INORDER if p in ins]]
             sv[vn] = type(sv[vn])(content)
     ds.update()
+    if STATE.get('twice') and zlib.crc32(tag.encode()) % 2 == 0:
+        # an algorithm may save more than once in a run (a checkpoint, then the final save of the same content)
+        ds.update()
 
 
 engine.HOOK = run_hook
@@ -98,6 +102,7 @@ class E2EWorld(World):
         DBI().open()
         super().__init__(desc, targets)
         STATE['world'] = self
+        STATE['twice'] = bool(getattr(self, 'save_twice', False))
         self.prog = sched_h.prog_view(desc)
         self.algs = [a for a in ORDER if a in self.prog['kind']]
         self.src = {(a, t, v): 0 for a in self.algs if not self.prog['ins'][a] for t in targets for v in self.prog['vals'][a]}
@@ -182,6 +187,7 @@ def obs0():
 
 def run_job(job, dbdir):
     dawgie.db.util.subprocess = _REAL_SUBPROCESS if job.get('real_digest') else _STUB_SUBPROCESS
+    E2EWorld.save_twice = int(job['id']) % 2 == 1  # every other history: some algorithms save twice per run
     w = E2EWorld(job['desc'], job['targets'], dbdir)
     steps = []
     try:
